@@ -442,7 +442,43 @@ def rule_optchain_shape(check):
         check.expect(sorted(kinds) == sorted(want) and not extra, R, R + "/start-conditions", hir.loc(x), "lowering starts under exactly {%s}" % ", ".join(want), "the optional-chain lowering starts under {%s}: `recv?.m(..)` calls of configured methods are skipped or other shapes are lowered" % ", ".join(kinds))
 
 
+def rule_literal_skip(check):
+    R = "LITERAL-SKIP"
+    check.rule(R, "a `+` is left alone only when *all* of its operands are literals: the binary transform builds the hook iff any reported argument is not a literal; the template transform always builds it (the caller has already excluded literal substitutions)")
+    prog = check.prog
+    f = prog.fn("binary_add_transform::to_dd_binary_expr_binary")
+    hooks = [n for n in hir.calls_in(f.body, name="get_dd_paren_expr")]
+    check.floor(R, "hook constructions in the binary transform", len(hooks), 1)
+    for n in hooks:
+        conds = [c for c in f.conds_at(n) if c["t"] == "bool"]
+        ok = len(conds) == 1 and conds[0]["v"] is True and hir.is_call(hir.peel(conds[0]["e"])) and hir.callee_name(hir.peel(conds[0]["e"])) == "prepare_replace_expressions_in_binary"
+        check.expect(ok, R, R + "/gate", hir.loc(n), "hook built iff prepare_replace_expressions_in_binary(..) is true", "the `+` hook is built under %s" % [hir.cond_str(c) for c in conds])
+    from ..prov import return_exprs
+
+    g = prog.fn("binary_add_transform::prepare_replace_expressions_in_binary")
+    rets = [hir.peel(r) for r in return_exprs(g.body)]
+    ok = len(rets) == 1 and hir.is_call(rets[0]) and hir.callee_name(rets[0]) == "must_replace_binary_expression" and hir.local_of(hir.call_args(rets[0])[0]) and g.bindings()[hir.local_of(hir.call_args(rets[0])[0])[0]]["name"] == "arguments"
+    check.expect(bool(ok), R, R + "/decision-input", hir.loc(g.rec), "decision = must_replace_binary_expression(arguments)", "the decision to instrument `+` is not taken from the reported arguments")
+    h = prog.fn("binary_add_transform::must_replace_binary_expression")
+    rets = [hir.peel(r) for r in return_exprs(h.body)]
+    ok = False
+    if len(rets) == 1 and hir.is_call(rets[0]) and (hir.callee_name(rets[0]) or rets[0].get("method")) == "any":
+        cl = hir.peel(hir.call_args(rets[0])[1])
+        body = hir.peel(cl["body"]) if cl.get("k") == "Closure" else {}
+        neg = body.get("k") == "Unary" and body.get("op") == "Not"
+        inner = hir.peel(body["x"]) if neg else {}
+        src = hir.peel(hir.call_args(rets[0])[0])
+        full = src.get("k") == "MethodCall" and src["method"] == "iter"
+        ok = neg and hir.is_call(inner) and (hir.callee_name(inner) or inner.get("method")) == "is_lit" and full
+    check.expect(ok, R, R + "/any-non-literal", hir.loc(h.rec), "instrument iff any argument is not a literal", "must_replace_binary_expression is not `arguments.iter().any(|a| !a.expr.is_lit())`: `x + 'lit'` (or similar) is skipped")
+    t = prog.fn("TemplateTransform::to_dd_tpl_expr")
+    for n in hir.calls_in(t.body, name="get_dd_paren_expr"):
+        conds = [c for c in t.conds_at(n) if c["t"] == "bool"]
+        check.expect(not conds, R, R + "/template-always", hir.loc(n), "the template hook is built unconditionally once reached", "the template hook is built only under %s" % [hir.cond_str(c) for c in conds])
+
+
 def run(check):
+    check.guarded("LITERAL-SKIP", rule_literal_skip)
     check.guarded("OPTCHAIN-SHAPE", rule_optchain_shape)
     check.rule("TRAV-COVER", "on every structural path of every visit_mut_* override of the instrumenting visitors, every child that can contain an expression is visited (visit_mut_with / visit_mut_children_with), unless the path matches a documented exclusion of the property statement")
     check.rule("TRAV-ROOT", "x.visit_mut_children_with(v) on a sub-node x whose type has an override in v bypasses that override for the root of x")
